@@ -210,6 +210,16 @@ impl<'a> TagTrainer<'a> {
                         .to_int_unchecked::<i32>()
                 };
             }
+            #[cfg(feature = "verif-hooks")]
+            for &cls in model.labels() {
+                let cls = usize::try_from(cls).unwrap();
+                crate::verif_hooks::push(crate::verif_hooks::TraceItem::TagBias(
+                    token.clone(),
+                    class_offset,
+                    cls,
+                    bias[class_offset + cls],
+                ));
+            }
             for (feature, fid) in feature_ids {
                 match feature {
                     TagFeature::CharacterNgram(NgramFeature {
@@ -224,6 +234,21 @@ impl<'a> TagTrainer<'a> {
                             let weight = unsafe {
                                 (raw_weight / quantize_multiplier).to_int_unchecked::<i32>()
                             };
+                            #[cfg(feature = "verif-hooks")]
+                            crate::verif_hooks::push(crate::verif_hooks::TraceItem::TagFeature(
+                                token.clone(),
+                                class_offset,
+                                usize::try_from(cls).unwrap(),
+                                alloc::format!(
+                                    "c:{}:{}",
+                                    ngram
+                                        .bytes()
+                                        .map(|b| alloc::format!("{b:02x}"))
+                                        .collect::<alloc::string::String>(),
+                                    rel_position
+                                ),
+                                weight,
+                            ));
                             if weight == 0 {
                                 continue;
                             }
@@ -245,6 +270,21 @@ impl<'a> TagTrainer<'a> {
                             let weight = unsafe {
                                 (raw_weight / quantize_multiplier).to_int_unchecked::<i32>()
                             };
+                            #[cfg(feature = "verif-hooks")]
+                            crate::verif_hooks::push(crate::verif_hooks::TraceItem::TagFeature(
+                                token.clone(),
+                                class_offset,
+                                usize::try_from(cls).unwrap(),
+                                alloc::format!(
+                                    "t:{}:{}",
+                                    ngram
+                                        .iter()
+                                        .map(|t| alloc::format!("{t}"))
+                                        .collect::<alloc::string::String>(),
+                                    rel_position
+                                ),
+                                weight,
+                            ));
                             if weight == 0 {
                                 continue;
                             }
